@@ -90,12 +90,20 @@ func (c *Cache[T]) Invalidate(fileName string) {
 func (c *Cache[T]) LoadLatest(
 	fileName string, loader func() (T, error),
 ) (T, error) {
-	stale, lastModified, err := c.IsStale(fileName, c.Entry(fileName))
+	// Read the entry once: it may be deleted (eviction, Invalidate) at any
+	// time, and a file without an entry must always be loaded, even when
+	// its size and modification time equal those of the zero Entry.
+	var entry Entry[T]
+	item, cached := c.entries.Load(fileName)
+	if cached {
+		entry = item.(Entry[T])
+	}
+	stale, lastModified, err := c.IsStale(fileName, entry)
 	if err != nil {
 		var zero T
 		return zero, err
 	}
-	if stale {
+	if stale || !cached {
 		data, err := loader()
 		if err != nil {
 			var zero T
@@ -104,8 +112,6 @@ func (c *Cache[T]) LoadLatest(
 		c.Store(fileName, data, lastModified)
 		return data, nil
 	}
-	item, _ := c.entries.Load(fileName)
-	entry := item.(Entry[T])
 	return entry.Data, nil
 }
 
